@@ -11,6 +11,7 @@ type ReplayResult struct {
 	Inputs    map[string]string `json:"inputs,omitempty"`
 	Output    string            `json:"output,omitempty"`
 	Driver    string            `json:"driver,omitempty"`
+	Invocation *ReplayInvocation `json:"invocation,omitempty"` // how to run the replay again (./check --replay)
 }
 
 func (r *Report) replay(o *Obligation, sr *SolveResult) ReplayResult {
@@ -22,7 +23,10 @@ func (r *Report) replay(o *Obligation, sr *SolveResult) ReplayResult {
 	}
 	for _, d := range replayDrivers {
 		if d.match(o.Name) {
-			return d.run(r, o, sr)
+			lastGoReplay = nil
+			rr := d.run(r, o, sr)
+			rr.Invocation = lastGoReplay
+			return rr
 		}
 	}
 	return ReplayResult{Summary: "the solver produced a model but no replay driver is registered for this function; the model is in solver_output"}
